@@ -418,6 +418,14 @@ class HistoryRun:
         if os.path.exists(trace):
             os.unlink(trace)
         bp_path = lay["bp_path"]
+        if step.get("bp_locs") == "gone":
+            # the same blueprint as serialised on another checkout: `file: "simapp/src/x.rs"` -> `file: "elsewhere/simapp/src/x.rs"`
+            moved = os.path.join(self.slot.dir, f"moved-{self.seq}.ron")
+            with open(bp_path) as f:
+                text = f.read()
+            with open(moved, "w") as f:
+                f.write(text.replace('file: "', 'file: "elsewhere/'))
+            bp_path = moved
         argv = ["setarch", "x86_64", "-R", self.w.pavexc, "generate", "-b", bp_path, "-o",
                 step.get("out", lay["out"]).replace("$WS", ws)]
         if step.get("diag"):
